@@ -27,6 +27,7 @@ import EPV.Gen.RadConstSn
 import EPV.Spec.RadShockUnits
 import EPV.Lemmas.RadShock
 import EPV.Lemmas.RadShock2
+import EPV.Lemmas.Bridge.SemiRad
 import EPV.Tactics
 
 set_option linter.all false
@@ -41,32 +42,32 @@ noncomputable section
 
 theorem const_ed_sound (p : RadConstED.P) :
     RadConstED.p_sound p = soundSpeed p.gamma p.Cv p.Tref ∧ RadConstED.w_sound p = soundSpeed p.gamma p.Cv p.Tref := by
-  constructor <;> simp only [epv_tree, epv_leaf, soundSpeed]
+  epv_semi_rad_trees [soundSpeed]
 
 /-- **P₀ = a_r T_ref⁴ / (ρ₀ c_s²)** in the problem class, in the profile object, and as public attribute -/
 theorem const_ed_P0 (p : RadConstED.P) :
     RadConstED.p_P0 p = specP0 p.Tref p.rho0 p.gamma p.Cv ∧ RadConstED.f_P0 p = specP0 p.Tref p.rho0 p.gamma p.Cv ∧
       RadConstED.w_P0 p = specP0 p.Tref p.rho0 p.gamma p.Cv := by
-  refine ⟨?_, ?_, ?_⟩ <;> simp only [epv_tree, epv_leaf, specP0, physP0, radConstF, soundSpeed] <;> ring
+  epv_semi_rad_trees [specP0, physP0, radConstF, soundSpeed]
 
 /-- **C₀ = c / c_s** -/
 theorem const_ed_C0 (p : RadConstED.P) :
     RadConstED.p_C0 p = specC0 p.Tref p.gamma p.Cv ∧ RadConstED.f_C0 p = specC0 p.Tref p.gamma p.Cv ∧
       RadConstED.w_C0 p = specC0 p.Tref p.gamma p.Cv := by
-  refine ⟨?_, ?_, ?_⟩ <;> simp only [epv_tree, epv_leaf, specC0, physC0, cLight, soundSpeed] <;> ring
+  epv_semi_rad_trees [specC0, physC0, cLight, soundSpeed]
 
 /-- the physical constants themselves, and the reference scales handed to `setup_solver` -/
 theorem const_ed_constants (p : RadConstED.P) :
     RadConstED.p_c p = cLight ∧ RadConstED.p_ar p = radConstF ∧ RadConstED.w_ar p = radConstF ∧
       RadConstED.p_rho0 p = p.rho0 ∧ RadConstED.p_Tref p = p.Tref := by
-  refine ⟨?_, ?_, ?_, ?_, ?_⟩ <;> simp only [epv_tree, epv_leaf, cLight, radConstF]
+  epv_semi_rad_trees [cLight, radConstF]
 
 /-- the profile object sees the user's parameters, each in its own slot -/
 theorem const_ed_copies (p : RadConstED.P) :
     RadConstED.f_M0 p = p.M0 ∧ RadConstED.f_gamma p = p.gamma ∧ RadConstED.f_sigA p = p.sigA ∧ RadConstED.f_sigS p = p.sigS ∧
       RadConstED.f_expDensity_abs p = p.expDensity_abs ∧ RadConstED.f_expTemp_abs p = p.expTemp_abs ∧
       RadConstED.f_expDensity_scat p = p.expDensity_scat ∧ RadConstED.f_expTemp_scat p = p.expTemp_scat := by
-  refine ⟨?_, ?_, ?_, ?_, ?_, ?_, ?_, ?_⟩ <;> simp only [epv_tree, epv_leaf]
+  epv_semi_rad_trees
 
 /-- **cross sections of `fnctn_ED`**: σ_a, σ_s power laws with their own exponents, σ_t their sum -/
 theorem const_ed_sigma (p : RadConstED.P) :
@@ -74,34 +75,33 @@ theorem const_ed_sigma (p : RadConstED.P) :
     RadConstED.sigma_s p = crossSection p.sigS p.expDensity_scat p.expTemp_scat (RadConstED.density p) p.T ∧
     RadConstED.sigma_t p = totalCrossSection p.sigA p.expDensity_abs p.expTemp_abs p.sigS p.expDensity_scat p.expTemp_scat
       (RadConstED.density p) p.T := by
-  refine ⟨?_, ?_, ?_⟩ <;> simp only [epv_tree, epv_leaf, crossSection, totalCrossSection]
+  epv_semi_rad_trees [crossSection, totalCrossSection]
 
 /-- the density at which they are evaluated is `fnctn_ED.rho(T)` with the SPECIFIED P₀ -/
 theorem const_ed_density (p : RadConstED.P) :
     RadConstED.density p = edRho p.gamma (specP0 p.Tref p.rho0 p.gamma p.Cv) p.M0 p.T := by
-  simp only [epv_tree, epv_leaf, edRho, edB, specP0, physP0, radConstF, soundSpeed]
-  ring_nf
+  epv_semi_rad_tree [edRho, edB, specP0, physP0, radConstF, soundSpeed]
 
 /-! ### `nED_Solver`, problem 'nED' -/
 
 theorem const_ned_sound (p : RadConstNED.P) :
     RadConstNED.p_sound p = soundSpeed p.gamma p.Cv p.Tref ∧ RadConstNED.w_sound p = soundSpeed p.gamma p.Cv p.Tref := by
-  constructor <;> simp only [epv_tree, epv_leaf, soundSpeed]
+  epv_semi_rad_trees [soundSpeed]
 
 theorem const_ned_P0 (p : RadConstNED.P) :
     RadConstNED.p_P0 p = specP0 p.Tref p.rho0 p.gamma p.Cv ∧ RadConstNED.f_P0 p = specP0 p.Tref p.rho0 p.gamma p.Cv ∧
       RadConstNED.w_P0 p = specP0 p.Tref p.rho0 p.gamma p.Cv := by
-  refine ⟨?_, ?_, ?_⟩ <;> simp only [epv_tree, epv_leaf, specP0, physP0, radConstF, soundSpeed] <;> ring
+  epv_semi_rad_trees [specP0, physP0, radConstF, soundSpeed]
 
 theorem const_ned_C0 (p : RadConstNED.P) :
     RadConstNED.p_C0 p = specC0 p.Tref p.gamma p.Cv ∧ RadConstNED.f_C0 p = specC0 p.Tref p.gamma p.Cv ∧
       RadConstNED.w_C0 p = specC0 p.Tref p.gamma p.Cv := by
-  refine ⟨?_, ?_, ?_⟩ <;> simp only [epv_tree, epv_leaf, specC0, physC0, cLight, soundSpeed] <;> ring
+  epv_semi_rad_trees [specC0, physC0, cLight, soundSpeed]
 
 theorem const_ned_constants (p : RadConstNED.P) :
     RadConstNED.p_c p = cLight ∧ RadConstNED.p_ar p = radConstF ∧ RadConstNED.p_rho0 p = p.rho0 ∧ RadConstNED.p_Tref p = p.Tref ∧
       RadConstNED.f_Pr0 p = 1 / 3 ∧ RadConstNED.f_T0 p = 1 ∧ RadConstNED.f_epsilon p = p.epsilon := by
-  refine ⟨?_, ?_, ?_, ?_, ?_, ?_, ?_⟩ <;> simp only [epv_tree, epv_leaf, cLight, radConstF]
+  epv_semi_rad_trees [cLight, radConstF]
 
 /-- the profile object sees the user's parameters; the scattering coefficient is scaled by the asymptotic parameter ε
 (Ferguson, Morel & Lowrie 2017: σ_s → ε σ_s; ε = 1 by default) -/
@@ -110,7 +110,7 @@ theorem const_ned_copies (p : RadConstNED.P) :
       RadConstNED.f_sigS p = p.epsilon * p.sigS ∧
       RadConstNED.f_expDensity_abs p = p.expDensity_abs ∧ RadConstNED.f_expTemp_abs p = p.expTemp_abs ∧
       RadConstNED.f_expDensity_scat p = p.expDensity_scat ∧ RadConstNED.f_expTemp_scat p = p.expTemp_scat := by
-  refine ⟨?_, ?_, ?_, ?_, ?_, ?_, ?_, ?_⟩ <;> simp only [epv_tree, epv_leaf] <;> ring
+  epv_semi_rad_trees
 
 /-- **cross sections of `fnctn_nED`** at a node (P, M) -/
 theorem const_ned_sigma (p : RadConstNED.P) :
@@ -119,13 +119,13 @@ theorem const_ned_sigma (p : RadConstNED.P) :
       (RadConstNED.temperature p) ∧
     RadConstNED.sigma_t p = totalCrossSection p.sigA p.expDensity_abs p.expTemp_abs (RadConstNED.f_sigS p) p.expDensity_scat
       p.expTemp_scat (RadConstNED.density p) (RadConstNED.temperature p) := by
-  refine ⟨?_, ?_, ?_⟩ <;> simp only [epv_tree, epv_leaf, crossSection, totalCrossSection] <;> ring_nf
+  epv_semi_rad_trees [crossSection, totalCrossSection]
 
 /-- density and temperature of a node (P, M), with the SPECIFIED P₀ -/
 theorem const_ned_state (p : RadConstNED.P) :
     RadConstNED.density p = nedRho p.gamma (specP0 p.Tref p.rho0 p.gamma p.Cv) p.M0 p.P p.M ∧
       RadConstNED.temperature p = nedT p.gamma (specP0 p.Tref p.rho0 p.gamma p.Cv) p.M0 p.P p.M := by
-  constructor <;> simp only [epv_tree, epv_leaf, nedRho, nedT, specP0, physP0, radConstF, soundSpeed]
+  epv_semi_rad_trees [nedRho, nedT, specP0, physP0, radConstF, soundSpeed]
 
 /-- **total momentum flux at every node (P, M) of a nED profile** is the upstream one, with the specified P₀ -/
 theorem ned_momentum_const (p : RadConstNED.P) (hγ : p.gamma ≠ 0) (hM : p.M ≠ 0) (hM0 : p.M0 ≠ 0)
@@ -146,29 +146,29 @@ example : ∃ γ M M0 P0 P : ℝ, γ ≠ 0 ∧ M ≠ 0 ∧ M0 ≠ 0 ∧ γ * (M 
 
 theorem const_lm_sound (p : RadConstLM.P) :
     RadConstLM.p_sound p = soundSpeed p.gamma p.Cv p.Tref ∧ RadConstLM.w_sound p = soundSpeed p.gamma p.Cv p.Tref := by
-  constructor <;> simp only [epv_tree, epv_leaf, soundSpeed]
+  epv_semi_rad_trees [soundSpeed]
 
 theorem const_lm_P0 (p : RadConstLM.P) :
     RadConstLM.p_P0 p = specP0 p.Tref p.rho0 p.gamma p.Cv ∧ RadConstLM.f_P0 p = specP0 p.Tref p.rho0 p.gamma p.Cv ∧
       RadConstLM.w_P0 p = specP0 p.Tref p.rho0 p.gamma p.Cv := by
-  refine ⟨?_, ?_, ?_⟩ <;> simp only [epv_tree, epv_leaf, specP0, physP0, radConstF, soundSpeed] <;> ring
+  epv_semi_rad_trees [specP0, physP0, radConstF, soundSpeed]
 
 theorem const_lm_C0 (p : RadConstLM.P) :
     RadConstLM.p_C0 p = specC0 p.Tref p.gamma p.Cv ∧ RadConstLM.f_C0 p = specC0 p.Tref p.gamma p.Cv ∧
       RadConstLM.w_C0 p = specC0 p.Tref p.gamma p.Cv := by
-  refine ⟨?_, ?_, ?_⟩ <;> simp only [epv_tree, epv_leaf, specC0, physC0, cLight, soundSpeed] <;> ring
+  epv_semi_rad_trees [specC0, physC0, cLight, soundSpeed]
 
 theorem const_lm_constants (p : RadConstLM.P) :
     RadConstLM.p_c p = cLight ∧ RadConstLM.p_ar p = radConstF ∧ RadConstLM.p_rho0 p = p.rho0 ∧ RadConstLM.p_Tref p = p.Tref ∧
       RadConstLM.f_Pr0 p = 1 / 3 ∧ RadConstLM.f_T0 p = 1 ∧ RadConstLM.f_epsilon p = p.epsilon := by
-  refine ⟨?_, ?_, ?_, ?_, ?_, ?_, ?_⟩ <;> simp only [epv_tree, epv_leaf, cLight, radConstF]
+  epv_semi_rad_trees [cLight, radConstF]
 
 theorem const_lm_copies (p : RadConstLM.P) :
     RadConstLM.f_M0 p = p.M0 ∧ RadConstLM.f_gamma p = p.gamma ∧ RadConstLM.f_sigA p = p.sigA ∧
       RadConstLM.f_sigS p = p.epsilon * p.sigS ∧
       RadConstLM.f_expDensity_abs p = p.expDensity_abs ∧ RadConstLM.f_expTemp_abs p = p.expTemp_abs ∧
       RadConstLM.f_expDensity_scat p = p.expDensity_scat ∧ RadConstLM.f_expTemp_scat p = p.expTemp_scat := by
-  refine ⟨?_, ?_, ?_, ?_, ?_, ?_, ?_, ?_⟩ <;> simp only [epv_tree, epv_leaf] <;> ring
+  epv_semi_rad_trees
 
 theorem const_lm_sigma (p : RadConstLM.P) :
     RadConstLM.sigma_a p = crossSection p.sigA p.expDensity_abs p.expTemp_abs (RadConstLM.density p) (RadConstLM.temperature p) ∧
@@ -176,28 +176,28 @@ theorem const_lm_sigma (p : RadConstLM.P) :
       (RadConstLM.temperature p) ∧
     RadConstLM.sigma_t p = totalCrossSection p.sigA p.expDensity_abs p.expTemp_abs (RadConstLM.f_sigS p) p.expDensity_scat
       p.expTemp_scat (RadConstLM.density p) (RadConstLM.temperature p) := by
-  refine ⟨?_, ?_, ?_⟩ <;> simp only [epv_tree, epv_leaf, crossSection, totalCrossSection] <;> ring_nf
+  epv_semi_rad_trees [crossSection, totalCrossSection]
 
 theorem const_lm_state (p : RadConstLM.P) :
     RadConstLM.density p = nedRho p.gamma (specP0 p.Tref p.rho0 p.gamma p.Cv) p.M0 p.P p.M ∧
       RadConstLM.temperature p = nedT p.gamma (specP0 p.Tref p.rho0 p.gamma p.Cv) p.M0 p.P p.M := by
-  constructor <;> simp only [epv_tree, epv_leaf, nedRho, nedT, specP0, physP0, radConstF, soundSpeed]
+  epv_semi_rad_trees [nedRho, nedT, specP0, physP0, radConstF, soundSpeed]
 
 /-! ### `nED_Solver`, flux-limited variants (traced with problem 'FLD_LP'): constants only -/
 
 theorem const_fld_sound (p : RadConstFLD.P) :
     RadConstFLD.p_sound p = soundSpeed p.gamma p.Cv p.Tref ∧ RadConstFLD.w_sound p = soundSpeed p.gamma p.Cv p.Tref := by
-  constructor <;> simp only [epv_tree, epv_leaf, soundSpeed]
+  epv_semi_rad_trees [soundSpeed]
 
 theorem const_fld_P0 (p : RadConstFLD.P) :
     RadConstFLD.p_P0 p = specP0 p.Tref p.rho0 p.gamma p.Cv ∧ RadConstFLD.f_P0 p = specP0 p.Tref p.rho0 p.gamma p.Cv ∧
       RadConstFLD.w_P0 p = specP0 p.Tref p.rho0 p.gamma p.Cv := by
-  refine ⟨?_, ?_, ?_⟩ <;> simp only [epv_tree, epv_leaf, specP0, physP0, radConstF, soundSpeed] <;> ring
+  epv_semi_rad_trees [specP0, physP0, radConstF, soundSpeed]
 
 theorem const_fld_C0 (p : RadConstFLD.P) :
     RadConstFLD.p_C0 p = specC0 p.Tref p.gamma p.Cv ∧ RadConstFLD.f_C0 p = specC0 p.Tref p.gamma p.Cv ∧
       RadConstFLD.w_C0 p = specC0 p.Tref p.gamma p.Cv := by
-  refine ⟨?_, ?_, ?_⟩ <;> simp only [epv_tree, epv_leaf, specC0, physC0, cLight, soundSpeed] <;> ring
+  epv_semi_rad_trees [specC0, physC0, cLight, soundSpeed]
 
 theorem const_fld_copies (p : RadConstFLD.P) :
     RadConstFLD.f_M0 p = p.M0 ∧ RadConstFLD.f_gamma p = p.gamma ∧ RadConstFLD.f_sigA p = p.sigA ∧
@@ -206,23 +206,23 @@ theorem const_fld_copies (p : RadConstFLD.P) :
       RadConstFLD.f_expDensity_scat p = p.expDensity_scat ∧ RadConstFLD.f_expTemp_scat p = p.expTemp_scat ∧
       RadConstFLD.p_c p = cLight ∧ RadConstFLD.p_ar p = radConstF ∧ RadConstFLD.p_rho0 p = p.rho0 ∧ RadConstFLD.p_Tref p = p.Tref ∧
       RadConstFLD.f_Pr0 p = 1 / 3 := by
-  refine ⟨?_, ?_, ?_, ?_, ?_, ?_, ?_, ?_, ?_, ?_, ?_, ?_, ?_⟩ <;> simp only [epv_tree, epv_leaf, cLight, radConstF] <;> ring
+  epv_semi_rad_trees [cLight, radConstF]
 
 /-! ### `Sn_Solver` (its `epsilon` parameter is not handed on: the Sn problem always runs with ε = 1) -/
 
 theorem const_sn_sound (p : RadConstSn.P) :
     RadConstSn.p_sound p = soundSpeed p.gamma p.Cv p.Tref ∧ RadConstSn.w_sound p = soundSpeed p.gamma p.Cv p.Tref := by
-  constructor <;> simp only [epv_tree, epv_leaf, soundSpeed]
+  epv_semi_rad_trees [soundSpeed]
 
 theorem const_sn_P0 (p : RadConstSn.P) :
     RadConstSn.p_P0 p = specP0 p.Tref p.rho0 p.gamma p.Cv ∧ RadConstSn.f_P0 p = specP0 p.Tref p.rho0 p.gamma p.Cv ∧
       RadConstSn.w_P0 p = specP0 p.Tref p.rho0 p.gamma p.Cv := by
-  refine ⟨?_, ?_, ?_⟩ <;> simp only [epv_tree, epv_leaf, specP0, physP0, radConstF, soundSpeed] <;> ring
+  epv_semi_rad_trees [specP0, physP0, radConstF, soundSpeed]
 
 theorem const_sn_C0 (p : RadConstSn.P) :
     RadConstSn.p_C0 p = specC0 p.Tref p.gamma p.Cv ∧ RadConstSn.f_C0 p = specC0 p.Tref p.gamma p.Cv ∧
       RadConstSn.w_C0 p = specC0 p.Tref p.gamma p.Cv := by
-  refine ⟨?_, ?_, ?_⟩ <;> simp only [epv_tree, epv_leaf, specC0, physC0, cLight, soundSpeed] <;> ring
+  epv_semi_rad_trees [specC0, physC0, cLight, soundSpeed]
 
 theorem const_sn_copies (p : RadConstSn.P) :
     RadConstSn.f_M0 p = p.M0 ∧ RadConstSn.f_gamma p = p.gamma ∧ RadConstSn.f_sigA p = p.sigA ∧ RadConstSn.f_sigS p = p.sigS ∧
@@ -230,7 +230,7 @@ theorem const_sn_copies (p : RadConstSn.P) :
       RadConstSn.f_expDensity_scat p = p.expDensity_scat ∧ RadConstSn.f_expTemp_scat p = p.expTemp_scat ∧
       RadConstSn.p_c p = cLight ∧ RadConstSn.p_ar p = radConstF ∧ RadConstSn.p_rho0 p = p.rho0 ∧ RadConstSn.p_Tref p = p.Tref ∧
       RadConstSn.f_Pr0 p = 1 / 3 ∧ RadConstSn.f_epsilon p = 1 := by
-  refine ⟨?_, ?_, ?_, ?_, ?_, ?_, ?_, ?_, ?_, ?_, ?_, ?_, ?_, ?_⟩ <;> simp only [epv_tree, epv_leaf, cLight, radConstF] <;> ring
+  epv_semi_rad_trees [cLight, radConstF]
 
 theorem const_sn_sigma (p : RadConstSn.P) :
     RadConstSn.sigma_a p = crossSection p.sigA p.expDensity_abs p.expTemp_abs (RadConstSn.density p) (RadConstSn.temperature p) ∧
@@ -238,12 +238,12 @@ theorem const_sn_sigma (p : RadConstSn.P) :
       (RadConstSn.temperature p) ∧
     RadConstSn.sigma_t p = totalCrossSection p.sigA p.expDensity_abs p.expTemp_abs (RadConstSn.f_sigS p) p.expDensity_scat
       p.expTemp_scat (RadConstSn.density p) (RadConstSn.temperature p) := by
-  refine ⟨?_, ?_, ?_⟩ <;> simp only [epv_tree, epv_leaf, crossSection, totalCrossSection] <;> ring_nf
+  epv_semi_rad_trees [crossSection, totalCrossSection]
 
 theorem const_sn_state (p : RadConstSn.P) :
     RadConstSn.density p = nedRho p.gamma (specP0 p.Tref p.rho0 p.gamma p.Cv) p.M0 p.P p.M ∧
       RadConstSn.temperature p = nedT p.gamma (specP0 p.Tref p.rho0 p.gamma p.Cv) p.M0 p.P p.M := by
-  constructor <;> simp only [epv_tree, epv_leaf, nedRho, nedT, specP0, physP0, radConstF, soundSpeed]
+  epv_semi_rad_trees [nedRho, nedT, specP0, physP0, radConstF, soundSpeed]
 
 
 end
